@@ -113,7 +113,7 @@ def build(seed: int, cfg: dict):
         add(b["text"], "auto", "auto", mask, b["id"], "fault-weak", {"op": "opt_fault", "plan": plan, "refine": False})
     for k in range(cfg["solve"]):
         b = frng.choice(mathy)
-        plan = {"seed": frng.randrange(2**31), "groebner": 0, "solve": frng.choice([0.05, 0.3, 1.0])}
+        plan = {"seed": frng.randrange(2**31), "groebner": 0, "solve": frng.choice([0.05, 0.3, 1.0]), "solve_kind": frng.choice(["raise", "raise", "empty", "double"])}
         mask = frng.choice([MATH, MATH, workload.DEFAULT, workload.ALL])
         add(b["text"], "auto", "auto", mask, b["id"], "fault-solve", {"op": "opt_fault", "plan": plan, "refine": False})
     # recovery after an aborted call: abort, then the same call again
